@@ -1152,6 +1152,7 @@ fn run_once(cfg: &SyncCfg, ha: &[WOp], hb: &[WOp], limit: usize) -> Result<Once,
 const SYNC_MAX_ATTEMPTS: usize = 3000;
 
 struct ScenResult {
+    debug: String,
     attempts: usize,
     covered: bool,
     init_combos: usize,
@@ -1233,7 +1234,19 @@ fn run_scenario(cfg: &SyncCfg, ha: &[WOp], hb: &[WOp], limit: usize) -> ScenResu
             break;
         }
     }
+    let debug = if covered {
+        String::new()
+    } else {
+        format!(
+            "init seen {} of {}: {:?} ; final: {:?}",
+            init_seen.len(),
+            want_init,
+            init_seen.iter().map(|k| (k.2.join(","), k.3.join(","))).collect::<Vec<_>>(),
+            fin_seen.iter().map(|(k, (w, s))| format!("{:?} want {} seen {}", k, w, s.len())).collect::<Vec<_>>()
+        )
+    };
     ScenResult {
+        debug,
         attempts,
         covered,
         init_combos: init_seen.len(),
@@ -1481,6 +1494,10 @@ fn main() {
     // closure for single-key sets; thorough: the full closure everywhere
     let ctx_full = Ctx { core: core.clone(), base: base.clone(), list: all.clone(), recipes: recipes.clone() };
     let ctx_base = Ctx { core: core.clone(), base: base.clone(), list: base.clone(), recipes: recipes.clone() };
+    let part = args.flag("--part").map(|s| s.to_string());
+    if part.as_deref() == Some("sync") {
+        items.clear();
+    }
     let t0 = rep.elapsed_s();
     let results = par::par_map(&items, |_, it| {
         let ctx = if thorough || it.keys.len() == 1 { &ctx_full } else { &ctx_base };
@@ -1567,6 +1584,9 @@ fn main() {
             }
         }
     }
+    if part.as_deref() == Some("digest") {
+        scens.clear();
+    }
     let t1 = rep.elapsed_s();
     let sres = par::par_map(&scens, |_, s| run_scenario(&cfgs[s.cfg], &s.ha, &s.hb, s.limit));
     let t_sync = rep.elapsed_s() - t1;
@@ -1585,6 +1605,9 @@ fn main() {
         }
         if !r.covered {
             uncovered += 1;
+            if uncovered <= 5 && std::env::var("VERIF_C18_DEBUG").is_ok() {
+                eprintln!("uncovered: {} limit {} ha {:?} hb {:?}: {}", cfgs[s.cfg].name, s.limit, s.ha, s.hb, r.debug);
+            }
         }
         if r.order_dependent {
             order_dependent += 1;
@@ -1622,7 +1645,7 @@ fn main() {
     }
 
     let evaluations = cov.eq_comparisons + cov.neq_comparisons + sync_runs;
-    let exhaustive = cov.pools_incomplete == 0 && uncovered == 0;
+    let exhaustive = cov.pools_incomplete == 0 && uncovered == 0 && part.is_none();
     let mut samples: Vec<Value> = vec![
         json!({"part": "digest/equal", "depth": 0, "content": "k0: lww 'a'@1.r1 ts=1.r1; k1: lww 'b'@1.r2 ts=1.r2",
                "built": "8 construction kinds x 2 insertion orders, repeated until both iteration orders [k0,k1] and [k1,k0] were observed",
